@@ -52,7 +52,7 @@ MANIFEST = {
              "operations (rename, remove, keep, copy, overlay, underlay, clip, prepend, merge): every operation and every sequence "
              "(induction) leaves all entries outside the selected names identical and in order; the selected names become the "
              "abstract series op of the two inputs (overlay/underlay/prepend/clip) resp. satisfy the dictionary equations of "
-             "keep/remove/rename-to-fresh-names/rename-onto-an-existing-name/merge (`mergeSpec`); overlay/underlay/prepend apply exactly "
+             "keep/remove/rename (simultaneous: `rename_no_value_lost` -- swaps, chains and cycles lose nothing)/merge (`mergeSpec`); overlay/underlay/prepend apply exactly "
              "when both items are series of the same known frequency, integer included; in a sequence a name ends up as the last "
              "operation selecting it left it; option resolution of the spellings of one call (`merge_strategy_resolution`: the legacy "
              "`action=` decides when given, else the explicit strategy, else stack; `by_merging` = merge into an empty databox; "
@@ -1059,6 +1059,24 @@ def _gen_op(rng, db: Databox):
     keys = list(db.keys())
     strict = rng.chance(0.2)
     if kind == "rename":
+        shape = rng.weighted([("any", 5), ("swap", 1.5), ("chain", 1.5), ("cycle3", 1), ("identity", 0.7), ("onto-existing", 1.5)])
+        if shape != "any" and len(keys) >= (3 if shape == "cycle3" else 2):
+            # targets that are sources or existing names: a swap, a chain a->b, b->new, a cycle of three, a name onto itself,
+            # a target onto an existing name that is not a source
+            ks = rng.sample(keys, 3 if (shape == "cycle3" or len(keys) >= 3) else 2)
+            if shape == "swap":
+                src, tg = ks[:2], [ks[1], ks[0]]
+            elif shape == "chain":
+                src, tg = ks[:2], [ks[1], "n9"]
+            elif shape == "cycle3":
+                src, tg = ks[:3], [ks[1], ks[2], ks[0]]
+            elif shape == "identity":
+                src, tg = ks[:2], [ks[0], "n8"]
+            else:
+                src, tg = ks[:1], [ks[-1]]
+            if rng.chance(0.3):
+                src, tg = src + ["zz"], tg + ["n7"]               # plus a missing source (ignored unless strict)
+            return {"op": "rename", "sel": ("names", src), "tgt": ("names", tg), "strict": strict, "shape": shape}
         s = gen_sel(rng, keys)
         n = len(keys) if s[0] in ("all", "pred") else 1 if s[0] == "one" else len(s[1])
         return {"op": "rename", "sel": s, "tgt": gen_tgt(rng, keys, n), "strict": strict}
@@ -1371,11 +1389,21 @@ def oracle_op(ctx: Ctx, case, pre: Databox, pre_snapshot: Databox, others, post)
         else:
             pairs = list(zip(src, tg))
         selected = {s for s, _ in pairs} | {u for _, u in pairs}
-        simple = len({u for _, u in pairs}) == len(pairs) and not ({u for _, u in pairs} & set(keys)) and len({s for s, _ in pairs}) == len(pairs)
-        if simple:
+        # rename is a mapping of names: for distinct sources and distinct targets every target holds, afterwards, the very value
+        # its source held before -- also when a target is another source (swap, chain, cycle), its own source (identity) or an
+        # existing name -- and a source that is no target is gone
+        srcs, tgts = [s for s, _ in pairs], [u for _, u in pairs]
+        if len(set(srcs)) == len(srcs) and len(set(tgts)) == len(tgts):
+            overlapping = bool((set(tgts) & set(keys)))
+            site = "op-rename-overlapping-targets" if overlapping else "op-rename"
             for s, u in pairs:
-                if s in post or u not in post or post[u] is not pre_snapshot_obj(pre_snapshot, s):
-                    ctx.fail("op-rename", case, f"{s!r} -> {u!r}: the value did not move")
+                if u not in post or post[u] is not pre_snapshot_obj(pre_snapshot, s):
+                    ctx.fail(site, case, f"{s!r} -> {u!r}: {u!r} is not bound to the value {s!r} had"
+                                         + ("" if u in post else f" ({u!r} is missing)")); break
+                if s not in tgts and s in post:
+                    ctx.fail(site, case, f"{s!r} -> {u!r}: the source is still there"); break
+            if overlapping and pairs:
+                ctx.count("op_rename_overlapping")
     elif k == "remove":
         selected = set(select_py(keys, op["sel"], op["strict"])) if op["sel"] is not None else set()
         for n in selected:
